@@ -96,6 +96,14 @@ def lazy_vs_eager(lazy, eager):
     l_by = {ss(n["name"]): n for n in lazy["nodes"] if not n["flat"] and not n["shared_root"]}
     e_names = {n["name"]: n for n in eager["nodes"]}
     l_names = {n["name"]: n for n in lazy["nodes"]}
+    # the same test (modulo the set it is named after) must not be expanded into two nodes for one worker unless the complete parse has two as well
+    import collections as _c
+
+    cnt_l = _c.Counter(ss(n["name"]) for n in lazy["nodes"] if not n["flat"] and not n["shared_root"])
+    cnt_e = _c.Counter(ss(n["name"]) for n in eager["nodes"] if not n["flat"] and not n["shared_root"])
+    for name, c in sorted(cnt_l.items()):
+        if c > max(cnt_e.get(name, 0), 1):
+            errs.append(("lazy-duplicate", f"{name} exists {c} times after lazy expansion, {cnt_e.get(name, 0)} times in the complete parse"))
     for name, ln in l_by.items():
         en = e_by.get(name)
         if en is None:
@@ -174,8 +182,13 @@ def run_parse_check(prop, tier, seed, technique, rule, assumptions):
         from vt.e1 import scenarios as S
 
         ggall = engine.Scenario("GGall:net1+net2/lazy", "only leaves\nonly tutorial_gui,tutorial_get\n", "net1 net2", lazy=True)
+        # selections mixing primary test sets (a test reachable both as a selected leaf of one set and as a dependency named after another)
+        mixed = [engine.Scenario(f"MIX[{a}+{b}]:net1+net2/lazy", f"only {a},{b}\n", "net1 net2", lazy=True)
+                 for a, b in (("normal..client_clicked", "leaves..explicit_clicked"), ("normal..client_noop", "leaves..explicit_noop"),
+                              ("normal..tutorial1", "leaves..tutorial2.files"), ("normal..tutorial_gui", "all..tutorial_get.implicit_both"),
+                              ("minimal..tutorial1", "normal..tutorial2.names"))]
         dyn = [(S.T2(lazy=True), 1), (S.T3(lazy=True), 1), (S.G1(), 1 if tier == "quick" else 2), (S.G2(), 1 if tier == "quick" else 2),
-               (ggall, 0 if tier == "quick" else 1), (S.T2("net1 net2 net3", lazy=True), 1)]
+               (ggall, 0 if tier == "quick" else 1), (S.T2("net1 net2 net3", lazy=True), 1)] + [(m, 1) for m in mixed]
         dyn_rows = []
         for scn, k in dyn:
             scn.keep_graph = True
